@@ -18,7 +18,8 @@ PROPS = {
                  "the real server.New + Run on the virtual segment (sequential scripts under a virtual clock) and by real-time bursts of overlapping "
                  "packets, with an independent grant-overlap monitor on the tapped frames.",
         "props": ["C01", "C02Code"],
-        "streams": [{"test": "TestSrvSeq", "names": ["srvseq"], "timeout": 300}, {"test": "TestSrvConc", "names": ["srvconc"], "timeout": 300}],
+        "streams": [{"test": "TestSrvSeq", "names": ["srvseq"], "timeout": 300}, {"test": "TestSrvConc", "names": ["srvconc"], "timeout": 300},
+                    {"test": "TestDbConc", "names": ["dbconc"], "timeout": 300}],
         "rule": "corpus (D1-D3 histories) first; random configurations (prefix /24../30, pools of 1-8 addresses at start/middle/end, 0-2 static entries, "
                 "static_only 10%), 1-8 hosts with none / derived / custom / short / forged client identifiers, 5-45 messages of 19 kinds (DISCOVER, four "
                 "REQUEST shapes, wrong server, misaddressed, own MAC, own address, unknown type, forged ids, short hardware addresses, junk frames) "
